@@ -87,6 +87,10 @@ func VerifRevolut2Deterministic() {
 	for i, cur := range []string{"CHF", "EUR", "USD"}[:n] {
 		text += "CARD_PAYMENT,Current,2020-07-01 16:35:02,2020-07-02 05:27:33,shop,-1" + string(rune('0'+i)) + ".00,0.00," + cur + ",COMPLETED,5" + string(rune('0'+i)) + ".00\n"
 	}
+	if v.Param("products") == 2 {
+		// a second product (savings) in the first currency, completed on the same day
+		text += "TRANSFER,Savings,2020-07-01 17:00:00,2020-07-02 06:00:00,to savings,-5.00,0.00,CHF,COMPLETED,95.00\n"
+	}
 	run := func() string {
 		v.MapOrderMax(3)
 		v.MapOrder(true)
@@ -102,7 +106,7 @@ func VerifRevolut2Deterministic() {
 		var sb strings.Builder
 		for _, d := range p.builder.Build().Days {
 			for _, a := range d.Assertions {
-				sb.WriteString(a.Balances[0].Commodity.Name() + " ")
+				sb.WriteString(a.Balances[0].Commodity.Name() + "=" + a.Balances[0].Quantity.String() + " ")
 			}
 		}
 		return sb.String()
